@@ -122,6 +122,16 @@ func AllMethods() []string {
 	return anyMethods
 }
 
+// isSupportedMethod reports whether name is exactly one of the supported methods
+func isSupportedMethod(name string) bool {
+	for _, m := range anyMethods {
+		if m == name {
+			return true
+		}
+	}
+	return false
+}
+
 // MethodsString of all supported methods
 func MethodsString() string {
 	return strings.Join(anyMethods, ",")
